@@ -898,6 +898,9 @@ func typeSubst(h *newHelper, call *ast.CallExpr, info *types.Info, f *ast.File, 
 // if the file does not import a package the type needs, or the type mentions something that has
 // no name there).
 func typeExprIn(t types.Type, f *ast.File, p *packages.Package) (ast.Expr, bool) {
+	if !nameableIn(t, p.Types, 0) {
+		return nil, false
+	}
 	missing := false
 	q := func(pkg *types.Package) string {
 		if pkg == p.Types {
@@ -927,6 +930,55 @@ func typeExprIn(t types.Type, f *ast.File, p *packages.Package) (ast.Expr, bool)
 	}
 	stripPos(reflect.ValueOf(e))
 	return e, true
+}
+
+// nameableIn: the type can be written down in package pkg (no unexported name of another package).
+func nameableIn(t types.Type, pkg *types.Package, d int) bool {
+	if d > 8 {
+		return false
+	}
+	switch x := t.(type) {
+	case *types.Named:
+		o := x.Obj()
+		if o.Pkg() != nil && o.Pkg() != pkg && !o.Exported() {
+			return false
+		}
+		if ta := x.TypeArgs(); ta != nil {
+			for i := 0; i < ta.Len(); i++ {
+				if !nameableIn(ta.At(i), pkg, d+1) {
+					return false
+				}
+			}
+		}
+		return true
+	case *types.Pointer:
+		return nameableIn(x.Elem(), pkg, d+1)
+	case *types.Slice:
+		return nameableIn(x.Elem(), pkg, d+1)
+	case *types.Array:
+		return nameableIn(x.Elem(), pkg, d+1)
+	case *types.Map:
+		return nameableIn(x.Key(), pkg, d+1) && nameableIn(x.Elem(), pkg, d+1)
+	case *types.Chan:
+		return nameableIn(x.Elem(), pkg, d+1)
+	case *types.Signature:
+		for _, tup := range []*types.Tuple{x.Params(), x.Results()} {
+			for i := 0; i < tup.Len(); i++ {
+				if !nameableIn(tup.At(i).Type(), pkg, d+1) {
+					return false
+				}
+			}
+		}
+		return true
+	case *types.Struct:
+		for i := 0; i < x.NumFields(); i++ {
+			if !nameableIn(x.Field(i).Type(), pkg, d+1) {
+				return false
+			}
+		}
+		return true
+	}
+	return true
 }
 
 // stripPos clears every position of a freshly parsed tree (its positions belong to no file).
